@@ -159,7 +159,7 @@ pub fn decode_jitter(data: &[u8]) -> (c12::Case, Vec<c16::HOp>) {
         deltas.push(delta(&mut u));
     }
     let salt = deltas.len() as u64 ^ 0x5eed;
-    (c12::Case { prog: TimerProg { start, segs: vec![Seg::Lit(deltas)], salt }, rounds0, ops }, hops)
+    (c12::Case { prog: TimerProg { start, segs: vec![Seg::Lit(deltas)], salt }, rounds0, ops, first_result: None }, hops)
 }
 
 pub fn decode_timer(data: &[u8]) -> c13::Case {
